@@ -203,6 +203,13 @@ def run(ctx: Ctx):
     # the session core of the first family once more on the routed topology (nothing blocked: must behave like the switch)
     for k, c in enumerate(rig.exhaustive_cases(dict(base_cfg, topo="routed"), [login], ctx.scale(2, 3), core)):
         cases.append((f"exhcore-routed:{k}", c))
+    # below IP: two routers in a chain; router power, ARP "denied" + caches emptied (a decoy: ARP is exempt from the ACL), caches
+    # cleared, the reply direction blocked at the far router — mid-session
+    cfgm = dict(base_cfg, topo="routed2", max=2)
+    for k, c in enumerate(rig.exhaustive_cases(cfgm, [login], 3, rig.medium_alphabet())):
+        cases.append((f"exhmedium:1:{k}", c))
+    for k, c in enumerate(rig.exhaustive_cases(cfgm, [], 2, rig.medium_alphabet())):
+        cases.append((f"exhmedium:0:{k}", c))
     # the local command path: every sequence of three operations of the local alphabet (quick: a seeded sample of the largest families)
     fam_rng = ctx.rng.fork("families")
     local_all = list(rig.exhaustive_cases(base_cfg, rig.LOCAL_PREFIX, 3, rig.local_alphabet()))
@@ -239,6 +246,9 @@ def run(ctx: Ctx):
         ctx.case(case, opened and refused)
         ctx.count("family:" + name.split(":")[0])
         ctx.count("topology:" + case["cfg"].get("topo", "switch"))
+        for o in case["ops"]:
+            if o["op"] in rig.MEDIUM_OPS:
+                ctx.count("medium:" + o["op"] + (":" + o.get("how", "pair") if o["op"] == "block" else ""))
         if any(sn.get("blk") for sn in snaps):
             ctx.count("traces-with-a-blocked-direction")
         for q, a in zip(lines[2:], answers):
